@@ -17,6 +17,7 @@ DOC = {
         'C15.R1': 'every io::Result produced on the group path is PROPAGATED / RETURNED / LOGGED / ERR-RETURNED; closures receiving an io::Result do not discard it silently; named exceptions only',
         'C15.R2': 'hash_file_or_log_err / hash_transformed_or_log_err / file_info_or_log_err: Err -> log (except NotFound) -> None; Ok -> Some',
         'C15.R3': 'no unwrap()/expect() on an io::Result in any body reachable from group_files (named exceptions)',
+        'C15.R11': 'a failure that belongs to the file is reported once: when the hash of one path of a file cannot be computed, the next path (hard link) is tried only if the failed path no longer leads to that file (it vanished, was replaced, its directory became inaccessible) - otherwise every hard link repeats the same complete read and the same warning',
         'C15.R10': 'a file that cannot be read is never reported as a duplicate, also when no stage would read it: the groups that pass unhashed are opened and their length compared before they are reported (re-evaluates C01.R15)',
         'C15.R9': 'readable files are not lost to descriptors leaked by OTHER files: helper threads that can block are joined (re-evaluates C19.R8)',
         'C15.R8': 'an entry of the stdin list that cannot be a path at all (it contains a NUL byte) is left out alone, with a warning, instead of aborting the run in Path::from (re-evaluates C09.R12 no-nul-line)',
@@ -52,6 +53,7 @@ EXC = [
     (r'^cache::HashCacheFlusher::start::\{closure#0\}$', r'flush$', 'periodic cache flusher: the final close() reports errors'),
     (r'^hasher::evict_page_cache', r'posix_fadvise$', 'advice to the kernel only'),
     (r'^group::is_still_one_file::\{closure#\d+\}$', r'^std::fs::File::open$', 'a probe of a group that no stage reads: a failure sends the group through the hashing path, which reports the file (C01.R15 checks that the probe exists)'),
+    (r'^cache::incarnation_time$', r'Metadata::created$', 'no birth time on this file system / platform: the status-change time is used instead (C12.R2 checks the fallback)'),
     (r'^group::stdout_file_id$', r'fstat$', 'probe of where the standard output goes: if it cannot be examined, no file is excluded from the scan on its account'),
 ]
 
@@ -94,6 +96,7 @@ def run(ctx):
     reevaluate(ctx, 'C15.R9', c19.r8)
     from . import c01 as c01_
     reevaluate(ctx, 'C15.R10', c01_.r15)
+    r11(ctx)
     from .common import run_mandatory
     run_mandatory(ctx, 'C15')
     if ctx.tier == 'thorough' and not getattr(ctx, 'sibling', None):
@@ -351,3 +354,34 @@ def r5(ctx, lib):
                   'a NotFound error is passed over silently only when the scanned file itself no longer exists',
                   'every NotFound error of the transform pipeline is taken for a vanished input: a program that removes or renames the file it is given (`--in-place --transform "gzip $IN"`, mv, rm) '
                   'makes the re-open of the temporary fail with ENOENT, and every file - all perfectly readable - is dropped from the report without a single warning (exit 0, "Found 0 redundant files")')
+
+
+def r11(ctx):
+    rule = 'C15.R11'
+    lib = ctx.lib
+    from .common import rehash_core_path
+    task = None
+    for cp in lib.closures_of(rehash_core_path(lib)):
+        cb = lib.body(cp)
+        if cb.calls(r'Sender<.*>::send$|Sender::<T>::send$'):
+            task = cb
+    if task is None:
+        ctx.missing(rule, 'hashing task of rehash')
+        return
+    rm = [c for c in task.calls(r'Vec<.*>::remove$|Vec::<T, A>::remove$|Vec<.*>::swap_remove$|VecDeque.*::pop_front$')]
+    if not rm:
+        ctx.ok(rule, task.path + '|file-level-failure-not-retried', task.where(), 'no path is tried after another (one attempt per file)')
+        return
+    ok = False
+    for c in rm:
+        for d in task.dominators()[c.bb]:
+            t = task.blocks[d]['term']
+            if t['k'] != 'switch':
+                continue
+            sl = backslice(task, [t['op']])
+            if sl.has_call(r'^file::FileId::new$|FileMetadata::new$|^std::fs::(metadata|symlink_metadata)$|Path::exists$|try_exists$'):
+                ok = True
+    ctx.check(ok, rule, task.path + '|file-level-failure-not-retried', rm[0].where(), 'the next path of a file is tried only when the failed path no longer leads to that file',
+              'when the hash of fg[0] cannot be computed, fg[0] is removed and the next hard link is tried, whatever the failure was: "file length changed since the file was scanned", a read error, '
+              'a file mode that forbids reading are properties of the inode, so every one of the N paths reads the whole file again and fails the same way - a 64 MiB file with 8 hard links that '
+              'was appended to costs 640 MiB of reads and 9 identical warnings')
